@@ -65,5 +65,29 @@ pub fn run_q(args: &[&str]) -> String {
             .collect();
         rows.push(row);
     }
-    format!("{} | {}", descr.join(" "), rows.join(","))
+    // "adding a static token by kind alone or together with its text gives the same tree": the trees themselves (kinds,
+    // lengths, texts) and which tokens are one allocation
+    let mut dumps = Vec::new();
+    for g in &greens {
+        let mut s = String::new();
+        crate::builder_cases::dump_green(g, &*interner, &mut s);
+        dumps.push(s);
+    }
+    let mut ids: Vec<usize> = Vec::new();
+    let mut seen: Vec<usize> = Vec::new();
+    for t in &toks {
+        let a = t.green().verif_addr();
+        let i = seen.iter().position(|x| *x == a).unwrap_or_else(|| {
+            seen.push(a);
+            seen.len() - 1
+        });
+        ids.push(i);
+    }
+    format!(
+        "{} | {} | {} | same {}",
+        descr.join(" "),
+        rows.join(","),
+        dumps.join(" / "),
+        ids.iter().map(|i| i.to_string()).collect::<Vec<_>>().join(",")
+    )
 }
